@@ -187,35 +187,99 @@ def _mk_noteperf(inp):
     return m
 
 
-def render(op, inp):
-    """the real to_sequence"""
-    ev, s0, res, r = inp['events'], inp['start'], inp['res'], inp['r']
+def _x(inp):
+    return inp.get('x') or {}
+
+
+def _sigma(op, inp):
+    """seconds per step as the documentation defines it (for harness-side arguments given in seconds)"""
+    if op in ('perf', 'noteperf'):
+        return 1.0 / inp['res']
+    return 60.0 / _qpm(inp) / inp['res']
+
+
+def _shift(op, inp):
+    """whole bars by which sequence_start_time moves the rendering (steps)"""
+    return _x(inp).get('sst_bars', 0) * (inp.get('spb') or 0)
+
+
+def build(op, inp):
+    """the real event-sequence object holding the case's events"""
+    ev, s0, res = inp['events'], inp['start'], inp['res']
     if op == 'melody':
-        m = _mk_melody(ev, s0, inp['spb'], res)
-        return m.to_sequence(velocity=r['velocity'], instrument=r['instrument'], program=r['program'], qpm=_qpm(inp))
+        return _mk_melody(ev, s0, inp['spb'], res)
     if op == 'drums':
-        m = _mk_drums(ev, s0, inp['spb'], res)
-        return m.to_sequence(velocity=r['velocity'], instrument=r['instrument'], program=r['program'], qpm=_qpm(inp))
+        return _mk_drums(ev, s0, inp['spb'], res)
     if op == 'chords':
-        return _mk_chords(ev, s0, inp['spb'], res).to_sequence(qpm=_qpm(inp))
+        return _mk_chords(ev, s0, inp['spb'], res)
     if op == 'leadsheet':
         from note_seq import lead_sheets_lib
-        ls = lead_sheets_lib.LeadSheet(_mk_melody(ev[0], s0, inp['spb'], res), _mk_chords(ev[1], s0, inp['spb'], res))
-        return ls.to_sequence(velocity=r['velocity'], instrument=r['instrument'], qpm=_qpm(inp))
+        return lead_sheets_lib.LeadSheet(_mk_melody(ev[0], s0, inp['spb'], res), _mk_chords(ev[1], s0, inp['spb'], res))
     if op == 'pianoroll':
         from note_seq import pianoroll_lib
         p = inp['p']
-        m = pianoroll_lib.PianorollSequence(events_list=[tuple(e) for e in ev], steps_per_quarter=res, start_step=s0,
-                                            min_pitch=p['min_pitch'], max_pitch=p['max_pitch'])
-        return m.to_sequence(velocity=r['velocity'], instrument=r['instrument'], program=r['program'], qpm=_qpm(inp))
-    if op == 'perf':
-        return _mk_perf(op, inp).to_sequence(velocity=r['velocity'], instrument=r['instrument'], program=None)
-    if op == 'metric':
-        return _mk_perf(op, inp).to_sequence(velocity=r['velocity'], instrument=r['instrument'], program=None,
-                                             qpm=_qpm(inp))
+        if _x(inp).get('shift_range'):
+            # absolute MIDI pitches plus pitches outside [min_pitch, max_pitch]: the constructor shifts and filters
+            lo, hi = p['min_pitch'], p['max_pitch']
+            junk = [q for q in (lo - 1, hi + 1, 0, 127) if 0 <= q <= 127 and not lo <= q <= hi]
+            evl = [tuple([x + lo for x in e] + junk[:(i % 3)]) for i, e in enumerate(ev)]
+            return pianoroll_lib.PianorollSequence(events_list=evl, steps_per_quarter=res, start_step=s0,
+                                                   min_pitch=lo, max_pitch=hi, shift_range=True)
+        return pianoroll_lib.PianorollSequence(events_list=[tuple(e) for e in ev], steps_per_quarter=res,
+                                               start_step=s0, min_pitch=p['min_pitch'], max_pitch=p['max_pitch'])
+    if op in ('perf', 'metric'):
+        return _mk_perf(op, inp)
     if op == 'noteperf':
-        return _mk_noteperf(inp).to_sequence(instrument=r['instrument'])
+        return _mk_noteperf(inp)
     raise ValueError(op)
+
+
+def _base_sequence(inp, qpm):
+    """a base_note_sequence for PianorollSequence.to_sequence: the tempo plus a note the extractor must ignore"""
+    from note_seq.protobuf import music_pb2
+    b = music_pb2.NoteSequence()
+    b.tempos.add().qpm = qpm
+    b.ticks_per_quarter = 220
+    p = inp['p']
+    if p['min_pitch'] > 0 or p['max_pitch'] < 127:
+        n = b.notes.add()
+        n.pitch = p['min_pitch'] - 1 if p['min_pitch'] > 0 else p['max_pitch'] + 1
+        n.velocity, n.start_time, n.end_time = 90, 0.0, 0.5 * _sigma('pianoroll', inp)
+    return b
+
+
+def to_seq(op, inp, m):
+    """the real to_sequence with the case's arguments"""
+    r, x = inp['r'], _x(inp)
+    kw = {}
+    if x.get('sst_bars'):
+        kw['sequence_start_time'] = _shift(op, inp) * _sigma(op, inp)
+    if op in ('melody', 'drums'):
+        return m.to_sequence(velocity=r['velocity'], instrument=r['instrument'], program=r['program'], qpm=_qpm(inp), **kw)
+    if op == 'chords':
+        return m.to_sequence(qpm=_qpm(inp), **kw)
+    if op == 'leadsheet':
+        return m.to_sequence(velocity=r['velocity'], instrument=r['instrument'], qpm=_qpm(inp), **kw)
+    if op == 'pianoroll':
+        if x.get('base'):
+            kw['base_note_sequence'] = _base_sequence(inp, _qpm(inp) + (7.0 if x['base'] == 'bad_qpm' else 0.0))
+        return m.to_sequence(velocity=r['velocity'], instrument=r['instrument'], program=r['program'], qpm=_qpm(inp), **kw)
+    if x.get('mnd') == 'big':
+        kw['max_note_duration'] = 1e6
+    elif x.get('mnd_steps'):
+        kw['max_note_duration'] = (x['mnd_steps'] + 0.25) * _sigma(op, inp)
+    if op == 'perf':
+        return m.to_sequence(velocity=r['velocity'], instrument=r['instrument'], program=r.get('program'), **kw)
+    if op == 'metric':
+        return m.to_sequence(velocity=r['velocity'], instrument=r['instrument'], program=r.get('program'),
+                             qpm=_qpm(inp), **kw)
+    if op == 'noteperf':
+        return m.to_sequence(instrument=r['instrument'], program=r.get('program'))
+    raise ValueError(op)
+
+
+def render(op, inp):
+    return to_seq(op, inp, build(op, inp))
 
 
 def quantize(op, inp, seq):
@@ -241,27 +305,33 @@ def extract(op, inp, q):
     from note_seq import melodies_lib, drums_lib, chords_lib, pianoroll_lib, lead_sheets_lib
     from note_seq import performance_lib as pl
     p, s0 = inp['p'], inp['start']
+    dirty = _x(inp).get('reuse')
     try:
         if op in ('melody', 'leadsheet'):
-            m = melodies_lib.Melody()
+            # 'reuse': extraction into an object that already holds another melody must not depend on it
+            m = melodies_lib.Melody([60, -2, -1, 72], start_step=7, steps_per_bar=3, steps_per_quarter=5) if dirty \
+                else melodies_lib.Melody()
             m.from_quantized_sequence(q, search_start_step=p['search_start_step'], instrument=p['instrument'],
                                       gap_bars=p['gap_bars'], ignore_polyphonic_notes=p['ignore_polyphonic_notes'],
                                       pad_end=p['pad_end'], filter_drums=p['filter_drums'])
             if op == 'melody':
                 return _mel_out(m)
-            c = chords_lib.ChordProgression()
+            c = chords_lib.ChordProgression(['F', 'G'], start_step=3, steps_per_bar=5) if dirty \
+                else chords_lib.ChordProgression()
             c.from_quantized_sequence(q, m.start_step, m.end_step)
             ls = lead_sheets_lib.LeadSheet(m, c)
             return ['OK', _mel_out(ls.melody)[1:], _ch_out(ls.chords)[1:]]
         if op == 'drums':
-            m = drums_lib.DrumTrack()
+            m = drums_lib.DrumTrack([frozenset([36]), frozenset()], start_step=9, steps_per_bar=7) if dirty \
+                else drums_lib.DrumTrack()
             m.from_quantized_sequence(q, search_start_step=p['search_start_step'], gap_bars=p['gap_bars'],
                                       pad_end=p['pad_end'], ignore_is_drum=p['ignore_is_drum'])
             return ['OK', [sorted(int(x) for x in e) for e in m], m.start_step, m.end_step, m.steps_per_bar,
                     m.steps_per_quarter]
         if op == 'chords':
-            c = chords_lib.ChordProgression()
-            c.from_quantized_sequence(q, s0, p['end_step'])
+            c = chords_lib.ChordProgression(['F', 'G'], start_step=3, steps_per_bar=5) if dirty \
+                else chords_lib.ChordProgression()
+            c.from_quantized_sequence(q, s0 + _shift(op, inp), p['end_step'] + _shift(op, inp))
             return _ch_out(c)
         if op == 'pianoroll':
             m = pianoroll_lib.PianorollSequence(quantized_sequence=q, start_step=s0, min_pitch=p['min_pitch'],
@@ -270,11 +340,13 @@ def extract(op, inp, q):
         if op == 'perf':
             m = pl.Performance(quantized_sequence=q, start_step=s0, num_velocity_bins=p['bins'],
                                max_shift_steps=p['max_shift'], instrument=p['instrument'])
-            return ['OK', [[int(e.event_type), int(e.event_value)] for e in m], m.start_step, m.steps_per_second]
+            return ['OK', [[int(e.event_type), int(e.event_value)] for e in m], m.start_step, m.steps_per_second,
+                    m.max_shift_steps]
         if op == 'metric':
             m = pl.MetricPerformance(quantized_sequence=q, start_step=s0, num_velocity_bins=p['bins'],
                                      max_shift_quarters=p['max_shift_quarters'], instrument=p['instrument'])
-            return ['OK', [[int(e.event_type), int(e.event_value)] for e in m], m.start_step, m.steps_per_quarter]
+            return ['OK', [[int(e.event_type), int(e.event_value)] for e in m], m.start_step, m.steps_per_quarter,
+                    m.max_shift_steps]
         if op == 'noteperf':
             m = pl.NotePerformance(q, num_velocity_bins=p['bins'], instrument=p['instrument'], start_step=s0,
                                    max_shift_steps=p['max_shift'], max_duration_steps=p['max_duration'])
@@ -285,18 +357,111 @@ def extract(op, inp, q):
     raise ValueError(op)
 
 
+def _snap(op, m):
+    if op == 'leadsheet':
+        return [list(m.melody), list(m.chords), m.start_step, m.end_step]
+    return [list(m), m.start_step]
+
+
 def impl(case):
     op, inp = case['op'], case['input']
+    if op == 'reject':
+        return reject_impl(inp)
+    state = []
     try:
-        seq = render(op, inp)
-        q = quantize(op, inp, seq)
+        m = build(op, inp)
+        before = _snap(op, m)
+        seq = to_seq(op, inp, m)
+        first = seq.SerializeToString(deterministic=True)
+        if _snap(op, m) != before:
+            state.append('to_sequence-modified-the-event-sequence')
+        seq2 = to_seq(op, inp, m)                                  # the same call twice
+        if seq2.SerializeToString(deterministic=True) != first:
+            state.append('to_sequence-twice-differs')
+        del seq2.notes[:]                                          # edit a returned buffer, re-observe the rest
+        del seq2.text_annotations[:]
+        seq2.total_time = 99.0
+        if seq.SerializeToString(deterministic=True) != first or _snap(op, m) != before:
+            state.append('returned-sequence-aliased')
+        if op in RELATIVE and inp.get('ts'):
+            t = seq.time_signatures.add()
+            t.numerator, t.denominator, t.time = inp['ts'][0], inp['ts'][1], 0.0
+        given = seq.SerializeToString(deterministic=True)
+        q = quantize(op, dict(inp, ts=None), seq)
+        if seq.SerializeToString(deterministic=True) != given:
+            state.append('quantize-modified-its-argument')
     except Exception as e:  # noqa
         return _exc(e)
     notes = sorted([n.pitch, n.velocity, n.quantized_start_step, n.quantized_end_step, n.instrument, n.program,
                     int(n.is_drum)] for n in q.notes)
     texts = sorted([a.quantized_step, [ord(c) for c in a.text]] for a in q.text_annotations
                    if a.annotation_type == 1)
-    return ['OK', 1 if inp.get('canon') is True else None, notes, texts, q.total_quantized_steps, extract(op, inp, q)]
+    qbytes = q.SerializeToString(deterministic=True)
+    re = extract(op, inp, q)
+    if extract(op, inp, q) != re:
+        state.append('extraction-twice-differs')
+    if q.SerializeToString(deterministic=True) != qbytes:
+        state.append('extraction-modified-the-sequence')
+    if _snap(op, m) != before:
+        state.append('later-calls-modified-the-event-sequence')
+    return ['OK', 1 if inp.get('canon') is True else None, notes, texts, q.total_quantized_steps, re, state]
+
+
+def reject_impl(inp):
+    """constructor / argument rejection paths: the documented exception class, exactly"""
+    from note_seq import melodies_lib, drums_lib, chords_lib, pianoroll_lib, lead_sheets_lib
+    from note_seq import performance_lib as pl
+    k = inp['what']
+    try:
+        if k == 'perf-too-many-bins':
+            pl.Performance(steps_per_second=100, num_velocity_bins=128)
+        elif k == 'perf-neither':
+            pl.Performance()
+        elif k == 'metric-both':
+            pl.MetricPerformance(quantized_sequence=_empty_abs(100), steps_per_quarter=4)
+        elif k == 'melody-event-out-of-range':
+            melodies_lib.Melody([60, 128])
+        elif k == 'melody-append-out-of-range':
+            melodies_lib.Melody([60]).append(-3)
+        elif k == 'drums-not-a-frozenset':
+            drums_lib.DrumTrack([frozenset([36]), [38]])
+        elif k == 'drums-bad-pitch':
+            drums_lib.DrumTrack([frozenset([36]), frozenset([128])])
+        elif k == 'leadsheet-mismatch':
+            lead_sheets_lib.LeadSheet(melodies_lib.Melody([60, -2, -2]), chords_lib.ChordProgression(['C', 'C']))
+        elif k == 'leadsheet-start-mismatch':
+            lead_sheets_lib.LeadSheet(melodies_lib.Melody([60, -2], start_step=4), chords_lib.ChordProgression(['C', 'C']))
+        elif k == 'leadsheet-one-missing':
+            lead_sheets_lib.LeadSheet(melodies_lib.Melody([60, -2]), None)
+        elif k == 'perf-event-bad-pitch':
+            pl.PerformanceEvent(pl.PerformanceEvent.NOTE_ON, 128)
+        elif k == 'perf-event-negative-shift':
+            pl.PerformanceEvent(pl.PerformanceEvent.TIME_SHIFT, -1)
+        elif k == 'perf-event-zero-duration':
+            pl.PerformanceEvent(pl.PerformanceEvent.DURATION, 0)
+        elif k == 'perf-append-not-an-event':
+            pl.Performance(steps_per_second=100).append(60)
+        elif k == 'melody-from-absolute-quantized':
+            melodies_lib.Melody().from_quantized_sequence(_empty_abs(100))
+        elif k == 'perf-from-relative-quantized':
+            from note_seq import sequences_lib
+            from note_seq.protobuf import music_pb2
+            pl.Performance(quantized_sequence=sequences_lib.quantize_note_sequence(music_pb2.NoteSequence(), 4))
+        else:
+            return ['HARNESS-EXC', 'unknown reject case', k]
+    except Exception as e:  # noqa
+        return _exc(e)
+    return ['OK']
+
+
+REJECT = {'perf-too-many-bins': 'ValueError', 'perf-neither': 'ValueError', 'metric-both': 'ValueError',
+          'melody-event-out-of-range': 'ValueError', 'melody-append-out-of-range': 'ValueError',
+          'drums-not-a-frozenset': 'ValueError', 'drums-bad-pitch': 'ValueError',
+          'leadsheet-mismatch': 'MelodyChordsMismatchError', 'leadsheet-start-mismatch': 'MelodyChordsMismatchError',
+          'leadsheet-one-missing': 'MelodyChordsMismatchError', 'perf-event-bad-pitch': 'ValueError',
+          'perf-event-negative-shift': 'ValueError', 'perf-event-zero-duration': 'ValueError',
+          'perf-append-not-an-event': 'ValueError', 'melody-from-absolute-quantized': 'QuantizationStatusError',
+          'perf-from-relative-quantized': 'QuantizationStatusError'}
 
 
 # ---------------------------------------------------------------- model
@@ -304,8 +469,18 @@ def _opt(x):
     return [] if x is None else [int(x)]
 
 
+def _render_program(r):
+    """to_sequence(program=...): the explicit argument, else the performance's own program, else 0"""
+    if r.get('program') is not None:
+        return r['program']
+    return r.get('obj_program') or 0
+
+
 def model_input(case):
     op, inp = case['op'], case['input']
+    x = _x(inp)
+    if op == 'reject' or x.get('sst_bars') or x.get('base') or x.get('mnd_steps'):
+        return None            # arguments the step-level model does not have: oracle only
     p, r = inp['p'], inp['r']
     ts = list(inp.get('ts') or (4, 4))
     ev = inp['events']
@@ -330,10 +505,10 @@ def model_input(case):
     elif op in ('perf', 'metric'):
         ms = p['max_shift'] if op == 'perf' else inp['res'] * p['max_shift_quarters']
         pp = [p['bins'], ms, _opt(p['instrument'])]
-        rr = [r['velocity'], r['instrument'], r.get('obj_program') or 0, bool(r.get('obj_is_drum'))]
+        rr = [r['velocity'], r['instrument'], _render_program(r), bool(r.get('obj_is_drum'))]
     elif op == 'noteperf':
         pp = [p['bins'], p['max_shift'], p['max_duration'], _opt(p['instrument'])]
-        rr = [r['instrument'], r.get('obj_program') or 0, bool(r.get('obj_is_drum'))]
+        rr = [r['instrument'], _render_program(r), bool(r.get('obj_is_drum'))]
     else:
         raise ValueError(op)
     return [OPCODE[op], ev, inp['start'], inp['res'], ts, pp, rr]
@@ -364,9 +539,16 @@ def model_output(case, m):
         re = _res(re_, lambda r: [r[0], [[_txt(e) for e in r[1][0]]] + r[1][1:]])
     elif op == 'pianoroll':
         re = _res(re_, lambda r: r)
-    elif op in ('perf', 'metric', 'noteperf'):
+    elif op == 'noteperf':
         re = _res(re_, lambda r: [r, inp['start'], inp['res']])
+    elif op in ('perf', 'metric'):
+        re = _res(re_, lambda r: [r, inp['start'], inp['res'], _max_shift(op, inp)])
     return ['OK', canon, notes, texts, qsteps, re]
+
+
+def _max_shift(op, inp):
+    """max_shift_steps as REQUESTED: max_shift_steps, or steps_per_quarter * max_shift_quarters"""
+    return inp['p']['max_shift'] if op == 'perf' else inp['res'] * inp['p']['max_shift_quarters']
 
 
 def equal(case, a, b):
@@ -374,12 +556,12 @@ def equal(case, a, b):
         return a == b
     if a[1] is not None and a[1] != b[1]:
         return False          # a sequence canonical by construction must satisfy the model's canonical_T
-    return a[2:] == b[2:]
+    return a[2:6] == b[2:6]
 
 
 # ---------------------------------------------------------------- oracle: the property on the implementation
 def original(op, inp):
-    ev, s0, res = inp['events'], inp['start'], inp['res']
+    ev, s0, res = inp['events'], inp['start'] + _shift(op, inp), inp['res']
     if op == 'melody':
         return ['OK', list(ev), s0 if ev else 0, (s0 if ev else 0) + len(ev)]
     if op == 'drums':
@@ -388,8 +570,8 @@ def original(op, inp):
         return ['OK', list(ev), s0, s0 + len(ev)]
     if op == 'leadsheet':
         return ['OK', [list(ev[0]), s0, s0 + len(ev[0])], [list(ev[1]), s0, s0 + len(ev[1])]]
-    if op == 'pianoroll':
-        return ['OK', [list(e) for e in ev], s0, res]
+    if op in ('perf', 'metric'):
+        return ['OK', [list(e) for e in ev], s0, res, _max_shift(op, inp)]
     return ['OK', [list(e) for e in ev], s0, res]
 
 
@@ -408,6 +590,19 @@ def oracle(case, io):
     op, inp = case['op'], case['input']
     if io and io[0] == 'HARNESS-EXC':
         return {'kind': 'harness-exception', 'detail': io[1:]}
+    if op == 'reject':
+        want = ['EXC', REJECT[inp['what']]]
+        return None if io == want else {'kind': 'documented-rejection-missing', 'what': inp['what'], 'got': io, 'want': want}
+    x = _x(inp)
+    if x.get('base') == 'bad_qpm':
+        return None if io == ['EXC', 'ValueError'] else {'kind': 'pianoroll-base-qpm-mismatch-accepted', 'got': io[:2]}
+    if io[0] == 'OK' and io[6]:
+        return {'kind': 'state-' + io[6][0], 'op': op, 'all': io[6]}
+    v = _oracle_rejections(op, inp, io) or _oracle_render_fields(op, inp, io)
+    if v:
+        return v
+    if x.get('mnd_steps'):
+        return _oracle_max_note_duration(op, inp, io)
     if not inp.get('canon'):
         return None
     if io[0] != 'OK':
@@ -439,8 +634,68 @@ def oracle(case, io):
     return None
 
 
+def _oracle_rejections(op, inp, io):
+    """documented exceptions of the extractors, expected from the REQUESTED arguments"""
+    if io[0] != 'OK':
+        return None
+    re = io[5]
+    p = inp['p']
+    if op in ('melody', 'drums', 'chords', 'leadsheet') and _spb(inp['res'], inp.get('ts')) is None:
+        if re != ['EXC', 'NonIntegerStepsPerBarError']:
+            return {'kind': op + '-non-integer-steps-per-bar-not-reported', 'got': re[:2], 'ts': inp.get('ts')}
+        return None
+    if op == 'chords' and p['end_step'] <= inp['start']:
+        if re != ['EXC', 'BadChordError']:
+            return {'kind': 'chords-empty-range-not-rejected', 'got': re[:2]}
+        return None
+    if op == 'noteperf':
+        want = None
+        for sh, q, b, du in inp['events']:          # per tuple, in order: the shift limit first, then the duration
+            if sh > p['max_shift']:
+                want = 'TooManyTimeShiftStepsError'; break
+            if du > p['max_duration']:
+                want = 'TooManyDurationStepsError'; break
+        canonical_order = all(e[0] > 0 or i == 0 or inp['events'][i - 1][1] <= e[1] for i, e in enumerate(inp['events']))
+        if want and canonical_order and (p['instrument'] is None or p['instrument'] == inp['r']['instrument']) \
+                and re != ['EXC', want]:
+            return {'kind': 'noteperf-limit-not-reported', 'want': want, 'got': re[:2]}
+    return None
+
+
+def _oracle_render_fields(op, inp, io):
+    """every rendered note carries the REQUESTED velocity / instrument / program and the class's is_drum"""
+    if io[0] != 'OK' or op == 'chords' or _x(inp).get('base'):
+        return None
+    r = inp['r']
+    if op in ('melody', 'drums', 'pianoroll', 'leadsheet'):
+        want = [r['velocity'], r['instrument'], r.get('program', 0), int(op == 'drums')]
+    else:
+        vel = r['velocity'] if op != 'noteperf' and not inp['p']['bins'] else None
+        want = [vel, r['instrument'], _render_program(r), int(bool(r.get('obj_is_drum')))]
+    for n in io[2]:
+        got = [n[1], n[4], n[5], n[6]]
+        if any(w is not None and g != w for g, w in zip(got, want)):
+            return {'kind': op + '-rendered-note-fields', 'got': got, 'want_velocity_instrument_program_is_drum': want}
+    return None
+
+
+def _oracle_max_note_duration(op, inp, io):
+    """max_note_duration = k steps (+ a quarter step): every rendered note longer than k steps is cut to k"""
+    if io[0] != 'OK':
+        return {'kind': op + '-render-or-quantize-raised', 'got': io}
+    k = _x(inp)['mnd_steps']
+    want = sorted([n[0], n[2], min(n[3], n[2] + k)] for n in _x(inp)['notes'])
+    got = sorted([n[0], n[2], n[3]] for n in io[2])
+    if got != want:
+        return {'kind': op + '-max-note-duration-not-honoured', 'k': k,
+                'missing': [w for w in want if w not in got][:3], 'extra': [g for g in got if g not in want][:3]}
+    return None
+
+
 def nontrivial(case, io):
     inp = case['input']
+    if case['op'] == 'reject':
+        return io[0] == 'EXC'
     ev = inp['events']
     n = len(ev[0]) if case['op'] == 'leadsheet' else len(ev)
     return n >= 2 and io[0] == 'OK' and io[5][0] == 'OK'
@@ -872,14 +1127,20 @@ def direct_perf(rng, op):
              'max_shift_quarters': rng.choice([1, 2, 4, 4, 8]), 'instrument': rng.choice([None, None, 0])}
         ms = res * p['max_shift_quarters']
     canon = True
-    if rng.random() < 0.3:
+    doubled = rng.random() < 0.3
+    if doubled:
         notes = _doubled_notes(rng, s0, unit, p['bins'])        # canonical_perf_w covers them
     else:
         notes = _poly_notes(rng, s0, unit, rng.randint(1, 9))
     ev = encode_perf(notes, p['bins'], ms, s0)
     r = {'velocity': rng.choice([100, 64, 1]), 'instrument': 0,
          'obj_program': rng.choice([None, None, 7]), 'obj_is_drum': rng.choice([None, None, True, False])}
-    return _case(op, ev, s0, res, gen_qpm(rng), ts or (4, 4), spb, p, r, canon)
+    c = _case(op, ev, s0, res, gen_qpm(rng), ts or (4, 4), spb, p, r, canon)
+    if doubled is False and rng.random() < 0.12:
+        # max_note_duration of k steps: not an identity case; the oracle computes the cut notes from the request
+        c['input']['x'] = {'mnd_steps': rng.choice([1, 2, unit, rng.randint(1, 3 * unit)]), 'notes': [list(n) for n in notes]}
+        c['input']['canon'] = None
+    return c
 
 
 def direct_noteperf(rng):
@@ -916,7 +1177,43 @@ def gen_direct(rng, op):
     return direct_noteperf(rng)
 
 
+def decorate(rng, c):
+    """draw the remaining arguments of to_sequence / the constructors / the extractors at non-default values,
+    independently of everything else; none of them may change the round trip"""
+    op, inp = c['op'], c['input']
+    if _x(inp):
+        return c
+    x = {}
+    p, r = inp['p'], inp['r']
+    if op in ('melody', 'drums', 'chords', 'leadsheet'):
+        n = len(inp['events'][0]) if op == 'leadsheet' else len(inp['events'])
+        if n and rng.random() < 0.12:
+            x['sst_bars'] = rng.choice([1, 2, 5])               # sequence_start_time = whole bars, in seconds
+        if rng.random() < 0.25:
+            x['reuse'] = True                                   # extract into an object that already holds events
+    if op == 'drums':
+        r['program'] = rng.choice([0, 0, 40, 127])
+    if op == 'pianoroll':
+        if rng.random() < 0.15:
+            x['base'] = 'ok'
+        if rng.random() < 0.25:
+            x['shift_range'] = True
+    if op in ('perf', 'metric', 'noteperf'):
+        r['instrument'] = rng.choice([0, 0, 3, 15])
+        p['instrument'] = rng.choice([None, r['instrument']])
+        r['program'] = rng.choice([None, None, 9, 127])
+        if op != 'noteperf' and rng.random() < 0.2:
+            x['mnd'] = 'big'
+    if x:
+        inp['x'] = x
+    return c
+
+
 def gen_canonical(rng, op):
+    return decorate(rng, _gen_canonical(rng, op))
+
+
+def _gen_canonical(rng, op):
     if rng.random() < 0.5:
         return gen_direct(rng, op)
     for _ in range(50):
@@ -988,6 +1285,19 @@ def mutate(rng, case):
         inp['start'] = max(0, inp['start'] + rng.choice([1, -1, 3]))
     if 'gap_bars' in inp['p'] and rng.random() < 0.1:
         inp['p']['gap_bars'] = 0              # degenerate configuration: outside the canonical claim
+    inp.pop('x', None)
+    k = rng.random()
+    if k < 0.08 and op in ('melody', 'drums', 'chords', 'leadsheet'):
+        inp['ts'] = rng.choice([[1, 64], [3, 64]])          # bars of a non-integer number of steps: documented error
+    elif k < 0.16 and op in ('melody', 'leadsheet', 'perf', 'metric', 'noteperf'):
+        inp['r']['instrument'] = inp['r']['instrument'] + 1  # rendered on another instrument than the one extracted
+    elif k < 0.3 and op == 'noteperf' and ev:
+        if rng.random() < 0.5:
+            inp['p']['max_shift'] = max(0, max(e[0] for e in ev) - rng.choice([0, 1]))
+        else:
+            inp['p']['max_duration'] = max(1, max(e[3] for e in ev) - rng.choice([0, 1]))
+    elif k < 0.22 and op == 'chords':
+        inp['p']['end_step'] = inp['start'] - rng.choice([0, 1])   # empty range: BadChordError
     return c
 
 
@@ -1005,6 +1315,7 @@ def cases(rng, tier, n=None):
             out.append(c)
             if i % 3 == 0:
                 out.append(mutate(rng, c))
+    rng.shuffle(out)            # different classes / configurations interleaved in one process
     return out
 
 
@@ -1069,6 +1380,38 @@ def corpus():
                                                               'instrument': None},
                                             'r': {'instrument': 0, 'obj_program': None, 'obj_is_drum': None},
                                             'canon': True}})
+    # arguments at non-default values (oracle only where the step-level model has no such argument)
+    out.append(rel('melody', [60, -2, -2, -2, 62, -2, -1, -2, 64, -2], 16, 4, h97, dict(mp), dict(rr, velocity=1, program=99)))
+    out[-1]['input']['x'] = {'sst_bars': 2, 'reuse': True}
+    out.append(rel('chords', ['N.C.', 'C', 'C', 'Am'], 16, 4, h133, {'end_step': 20}, {}))
+    out[-1]['input']['x'] = {'sst_bars': 1, 'reuse': True}
+    out.append(rel('leadsheet', [[60, -2, 62, -2], ['N.C.', 'C', 'C', 'Am']], 32, 4, h97, dict(mp, search_start_step=16),
+                   {'velocity': 100, 'instrument': 0}))
+    out[-1]['input']['x'] = {'sst_bars': 5}
+    out.append(rel('pianoroll', [[39, 43], [39], [], [39, 43], [43]], 16, 4, h97, dict(pp), dict(rr)))
+    out[-1]['input']['x'] = {'base': 'ok', 'shift_range': True}
+    out.append(rel('pianoroll', [[39, 43], [39]], 0, 4, h97, dict(pp), dict(rr), canon=None))
+    out[-1]['input']['x'] = {'base': 'bad_qpm'}
+    out.append({'op': 'perf', 'input': {'events': encode_perf([(60, 100, 0, 9), (64, 100, 2, 3)], 0, 100, 0), 'start': 0,
+                                        'res': 100, 'p': dict(fp, bins=0, max_shift=100),
+                                        'r': dict(pr, instrument=3, program=9), 'canon': None,
+                                        'x': {'mnd_steps': 4, 'notes': [[60, 100, 0, 9], [64, 100, 2, 3]]}}})
+    out.append({'op': 'metric', 'input': {'events': [[4, 1], [1, 60], [3, 2], [3, 2], [3, 1], [2, 60]], 'start': 8, 'res': 2,
+                                          'qpm': h97, 'ts': None, 'spb': 8,
+                                          'p': {'bins': 2, 'max_shift_quarters': 1, 'instrument': 3},
+                                          'r': dict(pr, instrument=3, program=9), 'canon': True, 'x': {'mnd': 'big'}}})
+    out.append({'op': 'noteperf', 'input': {'events': [[0, 60, 7, 4], [9, 64, 7, 2]], 'start': 0, 'res': 100,
+                                            'p': {'bins': 8, 'max_shift': 8, 'max_duration': 1000, 'instrument': None},
+                                            'r': {'instrument': 0, 'obj_program': None, 'obj_is_drum': None},
+                                            'canon': None}})          # the SECOND tuple exceeds the shift limit
+    out.append({'op': 'noteperf', 'input': {'events': [[0, 60, 7, 4], [1, 64, 7, 12]], 'start': 0, 'res': 100,
+                                            'p': {'bins': 8, 'max_shift': 1000, 'max_duration': 11, 'instrument': None},
+                                            'r': {'instrument': 0, 'obj_program': None, 'obj_is_drum': None},
+                                            'canon': None}})
+    out.append(rel('melody', [60, -2, 62, -2], 0, 1, h120, dict(mp), dict(rr), ts=[3, 8], canon=None))   # 1.5 steps per bar
+    out[-1]['input']['spb'] = 4
+    for k in sorted(REJECT):
+        out.append({'op': 'reject', 'input': {'what': k}})
     return out
 
 
